@@ -119,6 +119,7 @@ type sqlState struct {
 	conns map[string]driver.Conn
 	drv   driver.Driver
 	dead  map[string]bool // handles wedged by a panic or hang inside database/sql
+	rel   bool            // data source names use relative paths
 }
 
 func sqlCmd(args []string) {
@@ -151,6 +152,14 @@ func sqlCmd(args []string) {
 			return ds
 		}
 		dsn := "file:" + fileOf(ds)
+		if st.rel {
+			// the same file named relative to the working directory
+			if wd, err := os.Getwd(); err == nil {
+				if r, err := filepath.Rel(wd, fileOf(ds)); err == nil {
+					dsn = "file:" + r
+				}
+			}
+		}
 		if opts != "-" {
 			dsn += "?" + opts
 		}
@@ -167,6 +176,8 @@ func sqlCmd(args []string) {
 			var d *dataset
 			d, i = readDataset(lines, i)
 			datasets[d.id] = d
+		case "RELPATHS":
+			st.rel = t.next() == "on"
 		case "MISSINGFILE":
 			ds := t.next()
 			p, _ := filepath.Abs(filepath.Join(dir, ds+".updog"))
